@@ -5,6 +5,7 @@ CONSTANTS
   OtherSeeds = {7}
   Shots = {1, 3}
   MaxOther = 3
+  UnseededSeed = 900
   Export = FALSE
 INVARIANT Reproducible
 INVARIANT NoDrawUsedTwice
